@@ -182,29 +182,117 @@ pub const CRASH_INVARIANT: &str = "serdes/no-crash-every-call-returns";
 /// name the plans a process killed by a signal was executing
 pub static CUR_MARKER: Mutex<Option<(String, String)>> = Mutex::new(None);
 
+// ---- use of the library while a thread shuts down
+//
+// A caller may keep a per-thread recorder that is set up when the thread starts and flushes its last
+// values - through SerDes - from its destructor when the thread exits. Every simulated thread registers
+// such a thread-local *before* its first library call (destructors run last-registered-first, so
+// anything the library registered later is torn down before it) and performs a nested round trip from
+// the destructor. A panic there would abort the process: it is caught and recorded instead.
+
+static EXIT_FAULTS: Mutex<Vec<(std::thread::ThreadId, String)>> = Mutex::new(Vec::new());
+/// how often a nested call from the exit destructor met a thread-local of the library that was already gone
+pub static TLS_GONE: AtomicUsize = AtomicUsize::new(0);
+
+struct ExitFlush;
+impl Drop for ExitFlush {
+    fn drop(&mut self) {
+        let r = std::panic::catch_unwind(nested_roundtrip);
+        let fault = match r {
+            Ok(None) => None,
+            Ok(Some(e)) => Some(e),
+            Err(p) => Some(format!(
+                "the nested round trip panicked: {}",
+                p.downcast_ref::<String>().cloned().or_else(|| p.downcast_ref::<&str>().map(|s| s.to_string())).unwrap_or_default()
+            )),
+        };
+        // `LocalKey::with` on a thread-local that has a destructor panics here by std's documented contract -
+        // for a correct per-thread buffer as much as for a broken one: a probe, not a verdict (DESIGN 6.1)
+        let fault = match fault {
+            Some(f) if f.contains("Thread Local Storage value during or after destruction") => {
+                TLS_GONE.fetch_add(1, Ordering::Relaxed);
+                None
+            }
+            other => other,
+        };
+        if let Some(f) = fault {
+            if let Ok(mut g) = EXIT_FAULTS.lock() {
+                g.push((std::thread::current().id(), f));
+            }
+        }
+    }
+}
+thread_local! { static EXIT_FLUSH: ExitFlush = const { ExitFlush }; }
+
+fn arm_exit_flush() {
+    EXIT_FLUSH.with(|_| {});
+}
+fn exit_fault_of(id: std::thread::ThreadId) -> Option<String> {
+    let mut g = EXIT_FAULTS.lock().ok()?;
+    let pos = g.iter().position(|x| x.0 == id)?;
+    Some(g.remove(pos).1)
+}
+fn exit_violation(plan: &IoPlan, what: String) -> Violation {
+    let (ty, c) = plan.records.last().map(|r| (r.ty, r.c)).unwrap_or((crate::model::Ty::Fr, true));
+    Violation {
+        invariant: "serialize/8 library-usable-while-the-thread-exits".into(),
+        phase: "serialize",
+        step: plan.records.len(),
+        ty,
+        c,
+        expected: "a round trip made from a thread-local destructor registered before the thread's first library call behaves as usual".into(),
+        observed: what,
+    }
+}
+
 /// execute the plans one after the other on one brand-new OS thread
 pub fn execute_chunk(plans: &[IoPlan]) -> Vec<RunResult> {
-    std::thread::scope(|s| {
+    let joined = std::thread::scope(|s| {
         std::thread::Builder::new()
             .stack_size(1024 * 1024)
-            .spawn_scoped(s, || plans.iter().map(|p| execute(p, false)).collect::<Vec<_>>())
+            .spawn_scoped(s, || {
+                arm_exit_flush();
+                (std::thread::current().id(), plans.iter().map(|p| execute(p, false)).collect::<Vec<_>>())
+            })
             .map(|h| h.join())
-    })
-    .ok()
-    .and_then(|r| r.ok())
-    .unwrap_or_else(|| plans.iter().map(|p| execute(p, false)).collect())
+    });
+    match joined.ok().and_then(|r| r.ok()) {
+        Some((id, mut results)) => {
+            // the thread has terminated (join waits for its thread-local destructors)
+            if let Some(f) = exit_fault_of(id) {
+                if let (Some(last), Some(plan)) = (results.last_mut(), plans.last()) {
+                    if last.violation.is_none() {
+                        last.violation = Some(exit_violation(plan, f));
+                    }
+                }
+            }
+            results
+        }
+        None => plans.iter().map(|p| execute(p, false)).collect(),
+    }
 }
 
 pub fn execute_isolated(plan: &IoPlan, want_log: bool) -> RunResult {
-    std::thread::scope(|s| {
+    let joined = std::thread::scope(|s| {
         std::thread::Builder::new()
             .stack_size(512 * 1024)
-            .spawn_scoped(s, || execute(plan, want_log))
+            .spawn_scoped(s, || {
+                arm_exit_flush();
+                (std::thread::current().id(), execute(plan, want_log))
+            })
             .map(|h| h.join())
-    })
-    .ok()
-    .and_then(|r| r.ok())
-    .unwrap_or_else(|| execute(plan, want_log))
+    });
+    match joined.ok().and_then(|r| r.ok()) {
+        Some((id, mut r)) => {
+            if let Some(f) = exit_fault_of(id) {
+                if r.violation.is_none() {
+                    r.violation = Some(exit_violation(plan, f));
+                }
+            }
+            r
+        }
+        None => execute(plan, want_log),
+    }
 }
 
 pub fn fold_digests(d: &[u64]) -> u64 {
